@@ -139,3 +139,38 @@ def slice_calls_with_closures(b, sl):
                 if x.id == rv['def'] or x.id.startswith(rv['def'] + '::'):
                     cs |= {_sg(_callee(t2)) for _, t2 in x.calls() if _callee(t2)}
     return cs
+
+
+_fam_cache = {}
+
+
+def family_items(ctx, crate, roots):
+    """`roots` plus every function of the crate all of whose callers inside the crate are already in the family (the private helpers a
+    function was split into). Function values (`.map(helper)`) count as calls."""
+    from ..callgraph import CallGraph
+    key = (id(ctx.fb), crate)
+    if key not in _fam_cache:
+        g = CallGraph(ctx.fb, [(crate, 'Rlib')])
+        callers = {}
+        for f, cs in g.edges.items():
+            for c in cs:
+                if c in g.items and c != f:
+                    callers.setdefault(c, set()).add(f)
+        _fam_cache[key] = (g, callers)
+    g, callers = _fam_cache[key]
+    fam = set(roots)
+    changed = True
+    while changed:
+        changed = False
+        for h, cs in callers.items():
+            if h not in fam and cs and cs <= fam:
+                fam.add(h)
+                changed = True
+    return fam
+
+
+def family_bodies(ctx, crate, roots):
+    out = []
+    for it in sorted(family_items(ctx, crate, roots)):
+        out += ctx.fb.bodies_of_item(crate, it)
+    return out
